@@ -490,8 +490,10 @@ func (s Subtitles) WriteToWebVTT(o io.Writer) (err error) {
 
 	// Loop through styles in a stable order
 	var styleIDs []string
-	for id := range s.Styles {
-		styleIDs = append(styleIDs, id)
+	for id, style := range s.Styles {
+		if style != nil {
+			styleIDs = append(styleIDs, id)
+		}
 	}
 	sort.Strings(styleIDs)
 	var style []string
@@ -507,8 +509,10 @@ func (s Subtitles) WriteToWebVTT(o io.Writer) (err error) {
 
 	// Add regions
 	var k []string
-	for _, region := range s.Regions {
-		k = append(k, region.ID)
+	for id, region := range s.Regions {
+		if region != nil {
+			k = append(k, id)
+		}
 	}
 
 	sort.Strings(k)
